@@ -173,6 +173,11 @@ pub fn has_violation() -> bool {
     CH.with(|c| !c.borrow().violations.is_empty())
 }
 
+/// Whether a violation of the given property (any property if None) has been reported.
+pub fn has_violation_of(prop: Option<&'static str>) -> bool {
+    CH.with(|c| c.borrow().violations.iter().any(|v| prop.is_none() || Some(v.prop) == prop))
+}
+
 /// Folds an observation into the execution's signature.
 pub fn obs(v: u64) {
     CH.with(|c| c.borrow_mut().sig.u64(v))
